@@ -53,6 +53,15 @@ CHECKS = [
   "text": "Narrow claim. Decides: the keyword set save passes to np.savez equals the key set load reads; data is written on every path and grad exactly when tensor.grad is not None; file objects/paths pass through "
           "unmodified; save only reads .data/.grad, stores nothing and calls no tensor method; load rebuilds from loaded['data'] without dtype and restores through backward(loaded['grad']) exactly when the key "
           "exists." + NOT_DECIDED + "equality of loaded values; NumPy's .npz fidelity.", "note": NOTE},
+ {"property_id": "C03", "technique": "static: option-forwarding dataflow to the NumPy kernels (sentinel-guard recognition), dead-parameter lint over all forward passes and wrappers, flow-sensitive value slice w.r.t. TRACK_GRAPH",
+  "text": "Decides: in UnaryUfunc/BinaryUfunc/Sequential.__call__ the operands reach the kernel in order and every option reaches it under its own name unless it holds its not-given sentinel; no forward pass or "
+          "wrapper has a dead parameter and one-line wrappers forward every parameter to like-named keys; the value returned by an op's forward pass has no data/control dependence on TRACK_GRAPH (backward "
+          "slice over reaching definitions and in-place updates); Python scalars must reach the kernel unconverted (fails today: known finding D6)." + NOT_DECIDED + "equality of values/dtypes in general "
+          "(NumPy's run-time semantics); 0-d/empty/non-contiguous corner cases.", "note": NOTE},
+ {"property_id": "C16", "technique": "static: keyword/typestate check of as_strided, ancestor/dominance ordering of validation vs striding, sympy term comparison of caller/callee extent polynomials",
+  "text": "Narrow claim. Decides: the window view is created read-only; every raising guard of sliding_window_view precedes the striding and strides are read after the contiguity normalisation; the layers' "
+          "output-size checks dominate window creation; the dilated extent a layer accepts equals the one sliding_window_view enforces (ConvND fails: known finding D7) and the guard is at least as strict as "
+          "the placement formula (no out-of-bounds placement)." + NOT_DECIDED + "everything numeric: the window equation, conv/pool/batchnorm/gru/softmax/loss formulas.", "note": NOTE},
 ]
 _BUILT = {c["property_id"] for c in CHECKS}
 NOT_APPLICABLE = [
